@@ -103,6 +103,11 @@ pub trait Prop: Sync {
     fn needs_cli(&self) -> bool {
         false
     }
+    /// verdicts that depend on aggregated counts (rates); called by the supervisor with the
+    /// merged counters
+    fn aggregate(&self, _counters: &BTreeMap<String, u64>) -> Vec<Violation> {
+        vec![]
+    }
     /// run after all workers have finished, in the supervisor (sanitizer passes, CLI passes)
     fn post(&self, _ctx: &Ctx) -> Option<CaseOut> {
         None
